@@ -892,7 +892,13 @@ func rioRun(c *Ctx, rc rioCase, tape *simrt.Tape, count bool) ([]rioV, int) {
 	if c.Mode == "damage" {
 		return rioDamage(c, rc, tape, count)
 	}
-	return rioControl(c, rc, tape, count)
+	var vs []rioV
+	var evals int
+	if msg := libPanic(func() { vs, evals = rioControl(c, rc, tape, count) }); msg != "" {
+		simrt.Deactivate()
+		return append(vs, rioV{"panic|" + normErr(errors.New(msg)), "writing or reading valid records panicked inside the library: " + msg}), evals
+	}
+	return vs, evals
 }
 
 func rioShrinks(c rioCase) []rioCase {
